@@ -6,6 +6,7 @@ import DateutilVerif.Model.Factory
 import DateutilVerif.Proofs.FactoryLive
 import DateutilVerif.Proofs.FactorySingle
 import DateutilVerif.Proofs.FactoryRank
+import DateutilVerif.Proofs.FactoryTerm
 
 namespace C18
 open Fact
@@ -48,7 +49,13 @@ theorem eq_same_offsets_fixed_partial (a b : Zone) (oa ob : Int)
 `Reachable kd res (initState cap scripts) s`: `s` is reached from the empty factory of kind `kd`
 (lru = tzoffset/tzstr, gettz) with ANY strong-cache size, ANY list of thread scripts, by ANY
 sequence of steps — one statement of some thread, a caller dropping a reference, or the
-collection of an unreferenced weak entry.  `res` (how gettz.nocache resolves each name) is arbitrary. -/
+collection of an unreferenced weak entry.  `res` (how gettz.nocache resolves each name) is arbitrary.
+
+What is trusted about the standard library in these theorems: one read or one write of the weak
+dictionary is a step (`WeakValueDictionary.setdefault` is NOT assumed atomic: it is the two steps
+lSdRead / lSdWrite, and another thread may run between them), a dead entry disappears in one
+step, and the lock gives mutual exclusion.  The OrderedDict is only touched under the lock
+(`lock_discipline`), so nothing is assumed about the atomicity of its methods. -/
 
 variable {kd : Kind} {res : Key → Res} {cap : Nat} {scripts : List (List Op)} {s : State}
 
@@ -59,6 +66,17 @@ theorem unique_live_partial (hk : kd ≠ .single) (h : Reachable kd res (initSta
     {r r' : Ref} (hr : r ∈ s.g.held) (hr' : r' ∈ s.g.held) (hkey : r.key = r'.key) (hep : r.ep = r'.ep) :
     r.id = r'.id :=
   (reachable_inv (init_inv cap scripts) h).gi.heldUniq hk r hr r' hr' hkey hep
+
+/-- full strength for the factories that have no `cache_clear` (tzoffset, tzstr): among ALL the
+references callers hold, whenever they were handed out, one key has one object -/
+theorem unique_live_lru (h : Reachable .lru res (initState cap scripts) s)
+    {r r' : Ref} (hr : r ∈ s.g.held) (hr' : r' ∈ s.g.held) (hkey : r.key = r'.key) : r.id = r'.id := by
+  have hI := reachable_inv (init_inv (kd := .lru) (res := res) cap scripts) h
+  have h0 := epoch_zero (kd := .lru) (by decide) h
+  have e1 := hI.gi.heldEp r hr
+  have e2 := hI.gi.heldEp r' hr'
+  rw [h0] at e1 e2
+  exact hI.gi.heldUniq (by decide) r hr r' hr' hkey (by omega)
 
 /-- the negation at the excluded class, in the model: `a = gettz(k0); cache_clear(); b = gettz(k0)`
 with `a` still held gives two live ids for `k0` -/
@@ -98,7 +116,7 @@ theorem fresh_constructors (h : Reachable kd res (initState cap scripts) s)
       g'.held = s.g.held ∧ g'.epoch = s.g.epoch ∧ g'.single = s.g.single) ∧
     (th.pc = .fAlloc → ∀ i, th'.tmp = some i →
       (∀ k, s.g.weak k ≠ some i) ∧ (∀ e ∈ s.g.strong, e.2 ≠ i) ∧ (∀ r ∈ s.g.held, r.id ≠ i) ∧
-      (∀ (t2 : Tid) (th2 : Thread), s.ths[t2]? = some th2 → th2.inst ≠ some i ∧ th2.tmp ≠ some i)) := by
+      (∀ (t2 : Tid) (th2 : Thread), s.ths[t2]? = some th2 → th2.inst ≠ some i ∧ th2.tmp ≠ some i ∧ th2.seen ≠ some i)) := by
   have hI := reachable_inv (init_inv (kd := kd) (res := res) cap scripts) h
   refine ⟨fresh_frame hpc hs, ?_⟩
   intro hA i hi
@@ -111,7 +129,8 @@ theorem fresh_constructors (h : Reachable kd res (initState cap scripts) s)
     · intro r hr hk; have := hI.gi.heldLt r hr; rw [hk] at this; exact Nat.lt_irrefl _ this
     · intro t2 th2 h2
       exact ⟨fun hk => Nat.lt_irrefl _ ((hI.ti t2 th2 h2).instLt _ hk),
-             fun hk => Nat.lt_irrefl _ ((hI.ti t2 th2 h2).tmpLt _ hk)⟩
+             fun hk => Nat.lt_irrefl _ ((hI.ti t2 th2 h2).tmpLt _ hk),
+             fun hk => Nat.lt_irrefl _ ((hI.ti t2 th2 h2).seenLt _ hk)⟩
 
 /-- `set_cache_size` only affects retention: every statement of it leaves the weak map, callers'
 references, the epoch and the set of objects unchanged (it changes the strong cache, its size, the lock) -/
@@ -136,6 +155,13 @@ it is at most one over, between the insertion and the eviction — `pcInv` at xL
 theorem strong_within_capacity (h : Reachable kd res (initState cap scripts) s) (hl : s.g.lock = none) :
     s.g.strong.length ≤ s.g.cap :=
   (reachable_inv (init_inv cap scripts) h).gi.lenFree hl
+
+/-- retention is of the right object: whenever the lock is free, every entry `(k, i)` of the strong
+cache is the live object of its key — `weak k = some i` — so the next request for `k` finds `i`
+even if no caller references it any more (the strong reference also keeps the GC step away from it) -/
+theorem strong_retains (h : Reachable kd res (initState cap scripts) s) (hl : s.g.lock = none) :
+    ∀ e ∈ s.g.strong, s.g.weak e.1 = some e.2 :=
+  (reachable_inv (init_inv cap scripts) h).swFree hl
 
 /-- lock discipline: the lock is held exactly by a thread that is inside a `with` block
 (acquire / release balanced on every path); in particular nobody holds it once all have finished -/
@@ -193,19 +219,33 @@ theorem no_deadlock (h : Reachable kd res (initState cap scripts) s) :
     · exact ⟨t, run t _ hth hen⟩
 
 
-/-- FULL STATEMENT (not formalised: it needs infinite fair schedules): under every fair schedule every
-call returns.  PROVED: the variant `rank` (a number read off the thread's pc; for `set_cache_size`
-also twice the length of the strong cache) strictly decreases with EVERY statement a call executes,
-in every state — so a call runs at most `rank` of its own statements — and while a thread holds
-the lock no statement of another thread changes its rank — so a critical section is left after at
-most `rank` steps of its owner.  With `no_deadlock` (the lock holder can always move, a thread only
-ever waits for the lock) this is the termination argument; the set_cache_size loop is the only loop. -/
-theorem always_returns_partial :
+/-- every call returns, under ANY schedule: from a reachable state, any continuation (thread
+statements, reference drops and collections in any order, every label enabled when chosen) executes
+at most `measure s` thread statements (`measure` = 2·|strong cache| + Σ over threads of a pc rank
+plus a fixed cost per remaining script operation) — so a scheduler that keeps choosing enabled
+threads must stop — and when it stops because no thread is enabled, every thread has finished its
+script, i.e. every call has returned (no thread is left waiting for the lock or stuck at a statement
+that would raise). -/
+theorem always_returns (h : Reachable kd res (initState cap scripts) s) {ls : List Label} {s' : State}
+    (hrun : runLabels kd res s ls = some s') :
+    (ls.filter isThr).length ≤ measure s ∧
+    ((∀ t, step kd res s' (.thr t) = none) → ∀ th ∈ s'.ths, th.finished = true) := by
+  refine ⟨by have := run_bounded hrun; omega, ?_⟩
+  intro hnone
+  rcases no_deadlock (run_reachable h hrun) with hall | ⟨t, ht⟩
+  · exact hall
+  · rw [hnone t] at ht; cases ht
+
+/-- each thread statement strictly decreases the measure (the lemma behind `always_returns`), and the
+per-call variant `rank` decreases with every statement of that call and is untouched by other
+threads while the call holds the lock (so a critical section lasts at most `rank` steps of its owner) -/
+theorem variant_decreases :
+    (∀ {s s' : State} {t : Tid}, step kd res s (.thr t) = some s' → measure s' < measure s) ∧
     (∀ (t : Tid) (g g' : Glob) (th th' : Thread), th.pc ≠ .idle → tstep kd res t g th = some (g', th') →
         rank g' th' < rank g th) ∧
     (∀ {s s' : State} {t t' : Tid} {th2 : Thread}, Reachable kd res (initState cap scripts) s →
         step kd res s (.thr t) = some s' → t ≠ t' → s.g.lock = some t' → rank s'.g th2 = rank s.g th2) := by
-  refine ⟨fun t g g' th th' hpc h => rank_decreases hpc h, ?_⟩
+  refine ⟨fun h => step_thr_decreases h, fun t g g' th th' hpc h => rank_decreases hpc h, ?_⟩
   intro s s' t t' th2 hr hs hne hl
   have hI := reachable_inv (init_inv (kd := kd) (res := res) cap scripts) hr
   simp only [step] at hs
@@ -217,6 +257,8 @@ theorem always_returns_partial :
     · rename_i g' th' hstep
       cases hs
       exact rank_stable hne hl (tstep_guar (hI.ti t th hth) hstep)
+
+example : measure (initState 8 [[.call 0, .setSize 2], [.call 0, .clear]]) = 45 := by decide
 
 example : rank { strong := [(0, 0), (1, 1)] } { pc := .sLoop } = 7 := by decide
 
